@@ -153,122 +153,122 @@ def fieldNum (wire : Nat) : Option Nat :=
 
 /-! ### decoders (generated `Unmarshal` loops) -/
 
-def decMetaAux : Nat → Bytes → MetaData → Option MetaData
+/-- The outer `for iNdEx < l` loop of a generated `Unmarshal`: `step` consumes one field.
+    Every step consumes at least one byte, so `fuel = length + 1` always suffices. -/
+def decLoop {σ : Type} (step : Bytes → σ → Option (Bytes × σ)) : Nat → Bytes → σ → Option σ
   | 0, _, _ => none
-  | fuel + 1, bs, m =>
-    if bs = [] then some m else
-    match decVarint bs with
+  | fuel + 1, bs, s =>
+    if bs = [] then some s else
+    match step bs s with
     | none => none
-    | some (wire, rest) =>
-      let wt := wire % 8
-      if wt = 4 then none else
-      match fieldNum wire with
+    | some (rest, s') => decLoop step fuel rest s'
+
+/-- tag of the next field: (field number, wire type, rest) -/
+def decTag (bs : Bytes) : Option (Nat × Nat × Bytes) :=
+  match decVarint bs with
+  | none => none
+  | some (wire, rest) =>
+    let wt := wire % 8
+    if wt = 4 then none else
+    match fieldNum wire with
+    | none => none
+    | some f => some (f, wt, rest)
+
+/-- one field of `MetaData.Unmarshal` -/
+def decMetaStep (bs : Bytes) (m : MetaData) : Option (Bytes × MetaData) :=
+  match decTag bs with
+  | none => none
+  | some (f, wt, rest) =>
+    if f = 1 then
+      (if wt ≠ 0 then none else
+       match decVarint rest with
+       | none => none
+       | some (v, rest') => some (rest', { m with nonce := v }))
+    else if f = 4 then
+      (if wt ≠ 0 then none else
+       match decVarint rest with
+       | none => none
+       | some (v, rest') => some (rest', { m with royalties := v % two32 }))
+    else if f = 2 ∨ f = 3 ∨ f = 5 ∨ f = 6 ∨ f = 7 then
+      (if wt ≠ 2 then none else
+       match decLenDelim rest with
+       | none => none
+       | some (b, rest') =>
+         some (rest',
+           if f = 2 then { m with name := b }
+           else if f = 3 then { m with creator := b }
+           else if f = 5 then { m with hash := b }
+           else if f = 6 then { m with uris := m.uris ++ [b] }
+           else { m with attributes := b }))
+    else
+      match skipField wt rest with
       | none => none
-      | some f =>
-        if f = 1 then
-          (if wt ≠ 0 then none else
-           match decVarint rest with
-           | none => none
-           | some (v, rest') => decMetaAux fuel rest' { m with nonce := v })
-        else if f = 4 then
-          (if wt ≠ 0 then none else
-           match decVarint rest with
-           | none => none
-           | some (v, rest') => decMetaAux fuel rest' { m with royalties := v % two32 })
-        else if f = 2 ∨ f = 3 ∨ f = 5 ∨ f = 6 ∨ f = 7 then
-          (if wt ≠ 2 then none else
-           match decLenDelim rest with
-           | none => none
-           | some (b, rest') =>
-             decMetaAux fuel rest'
-               (if f = 2 then { m with name := b }
-                else if f = 3 then { m with creator := b }
-                else if f = 5 then { m with hash := b }
-                else if f = 6 then { m with uris := m.uris ++ [b] }
-                else { m with attributes := b }))
-        else
-          match skipField wt rest with
-          | none => none
-          | some rest' => decMetaAux fuel rest' m
+      | some rest' => some (rest', m)
 
 /-- `MetaData.Unmarshal` merging into `m0`. -/
-def decMetaInto (bs : Bytes) (m0 : MetaData) : Option MetaData := decMetaAux (bs.length + 1) bs m0
+def decMetaInto (bs : Bytes) (m0 : MetaData) : Option MetaData := decLoop decMetaStep (bs.length + 1) bs m0
 
 def decMeta (bs : Bytes) : Option MetaData := decMetaInto bs {}
 
-def decTokenAux : Nat → Bytes → Token → Option Token
-  | 0, _, _ => none
-  | fuel + 1, bs, t =>
-    if bs = [] then some t else
-    match decVarint bs with
-    | none => none
-    | some (wire, rest) =>
-      let wt := wire % 8
-      if wt = 4 then none else
-      match fieldNum wire with
+/-- one field of `ESDigitalToken.Unmarshal` -/
+def decTokenStep (bs : Bytes) (t : Token) : Option (Bytes × Token) :=
+  match decTag bs with
+  | none => none
+  | some (f, wt, rest) =>
+    if f = 1 then
+      (if wt ≠ 0 then none else
+       match decVarint rest with
+       | none => none
+       | some (v, rest') => some (rest', { t with type := v % two32 }))
+    else if f = 2 then
+      (if wt ≠ 2 then none else
+       match decLenDelim rest with
+       | none => none
+       | some (b, rest') =>
+         match decBigInt b with
+         | none => none
+         | some v => some (rest', { t with value := v }))
+    else if f = 3 then
+      (if wt ≠ 2 then none else
+       match decLenDelim rest with
+       | none => none
+       | some (b, rest') => some (rest', { t with properties := b }))
+    else if f = 4 then
+      (if wt ≠ 2 then none else
+       match decLenDelim rest with
+       | none => none
+       | some (b, rest') =>
+         match decMetaInto b (t.md.getD {}) with
+         | none => none
+         | some m => some (rest', { t with md := some m }))
+    else if f = 5 then
+      (if wt ≠ 2 then none else
+       match decLenDelim rest with
+       | none => none
+       | some (b, rest') => some (rest', { t with reserved := b }))
+    else
+      match skipField wt rest with
       | none => none
-      | some f =>
-        if f = 1 then
-          (if wt ≠ 0 then none else
-           match decVarint rest with
-           | none => none
-           | some (v, rest') => decTokenAux fuel rest' { t with type := v % two32 })
-        else if f = 2 then
-          (if wt ≠ 2 then none else
-           match decLenDelim rest with
-           | none => none
-           | some (b, rest') =>
-             match decBigInt b with
-             | none => none
-             | some v => decTokenAux fuel rest' { t with value := v })
-        else if f = 3 then
-          (if wt ≠ 2 then none else
-           match decLenDelim rest with
-           | none => none
-           | some (b, rest') => decTokenAux fuel rest' { t with properties := b })
-        else if f = 4 then
-          (if wt ≠ 2 then none else
-           match decLenDelim rest with
-           | none => none
-           | some (b, rest') =>
-             match decMetaInto b (t.md.getD {}) with
-             | none => none
-             | some m => decTokenAux fuel rest' { t with md := some m })
-        else if f = 5 then
-          (if wt ≠ 2 then none else
-           match decLenDelim rest with
-           | none => none
-           | some (b, rest') => decTokenAux fuel rest' { t with reserved := b })
-        else
-          match skipField wt rest with
-          | none => none
-          | some rest' => decTokenAux fuel rest' t
+      | some rest' => some (rest', t)
 
 /-- production `Unmarshal` of a token: `Reset()` then generated `Unmarshal`. -/
-def decToken (bs : Bytes) : Option Token := decTokenAux (bs.length + 1) bs {}
+def decToken (bs : Bytes) : Option Token := decLoop decTokenStep (bs.length + 1) bs {}
 
-def decRolesAux : Nat → Bytes → List Bytes → Option (List Bytes)
-  | 0, _, _ => none
-  | fuel + 1, bs, acc =>
-    if bs = [] then some acc else
-    match decVarint bs with
-    | none => none
-    | some (wire, rest) =>
-      let wt := wire % 8
-      if wt = 4 then none else
-      match fieldNum wire with
+/-- one field of `ESDTRoles.Unmarshal` -/
+def decRolesStep (bs : Bytes) (acc : List Bytes) : Option (Bytes × List Bytes) :=
+  match decTag bs with
+  | none => none
+  | some (f, wt, rest) =>
+    if f = 1 then
+      (if wt ≠ 2 then none else
+       match decLenDelim rest with
+       | none => none
+       | some (b, rest') => some (rest', acc ++ [b]))
+    else
+      match skipField wt rest with
       | none => none
-      | some f =>
-        if f = 1 then
-          (if wt ≠ 2 then none else
-           match decLenDelim rest with
-           | none => none
-           | some (b, rest') => decRolesAux fuel rest' (acc ++ [b]))
-        else
-          match skipField wt rest with
-          | none => none
-          | some rest' => decRolesAux fuel rest' acc
+      | some rest' => some (rest', acc)
 
-def decRoles (bs : Bytes) : Option (List Bytes) := decRolesAux (bs.length + 1) bs []
+def decRoles (bs : Bytes) : Option (List Bytes) := decLoop decRolesStep (bs.length + 1) bs []
 
 end Esdt
